@@ -2,7 +2,7 @@
 # merge_branch.sh <branch> Cxx [Cyy…]: merge an agent branch; props entries for the given
 # properties are taken from the branch's bin/props.py (old format) or bin/props/*.json.
 B="$1"; shift
-git merge "$B" -m "Merge $B" >/tmp/merge.log 2>&1 || true
+git add -A; git commit -qm "wip before merging $B" >/dev/null 2>&1; git merge "$B" -m "Merge $B" >/tmp/merge.log 2>&1 || true
 for f in $(git diff --name-only --diff-filter=U); do
   case "$f" in
     bin/props.py) git checkout --ours bin/props.py; git add bin/props.py;;
